@@ -1014,3 +1014,233 @@ def gen_key(tier):
         names.append(nm)
         out.append(fn_wrap(nm, B))
     return "\n".join(out), names
+
+
+# ------------------------------------------------------------------------------------------
+# C02: data continuity and routing by declared position
+# ------------------------------------------------------------------------------------------
+def data_entry(shape):
+    n = shape.n()
+    L = ["w().reset(false);"] + shape.setup + shape.build
+    for j in range(n):
+        L.append("let v%d = any_u8(T_DATA | %d);" % (j, j))
+    xm, sm = held_masks(shape, "w")
+    # exclusive guard: write through every declared position
+    L.append("let mut g = %s;" % unwrap_pois(shape, "coll.%s(key())" % ("lock" if shape.kind != "single_r" else "write")))
+    for j, path in enumerate(shape.guard):
+        L.append("%s = v%d;" % (path, j))
+    L.append("vcheck!(w().held_x.get() == %s, M_NOT_HELD_IN_SECTION);" % xm)
+    L.append("drop(g);")
+    # read back: each leaf singly (shapes over references), so position j of the guard is member j
+    for j, (i, k, ref) in enumerate(shape.leaves):
+        if ref.startswith("&") or ref == "raw6" or shape.kind in ("single_m", "single_r"):
+            continue
+        api = "lock" if k == "M" else "read"
+        L.append("{ let gj = %s.%s(key()); vcheck!(*gj == v%d, M_DATA); drop(gj); }" % (ref, api, j))
+    # second exclusive section sees the values of the first, at the same positions; scoped closure too
+    L.append("let mut g = %s;" % unwrap_pois(shape, "coll.%s(key())" % ("lock" if shape.kind != "single_r" else "write")))
+    for j, path in enumerate(shape.guard):
+        L.append("vcheck!(%s == v%d, M_DATA);" % (path, j))
+        L.append("%s = v%d.wrapping_add(%d);" % (path, j, j + 1))
+    L.append("drop(g);")
+    if shape.kind not in ("pois",):
+        dpaths = [p.replace("g", "d") for p in shape.guard]
+        sapi = "scoped_lock" if shape.kind != "single_r" else "scoped_write"
+        checks_ = " ".join("vcheck!(%s == v%d.wrapping_add(%d), M_DATA); %s = v%d;" % (p, j, j + 1, p, j) for j, p in enumerate(dpaths))
+        if shape.kind in ("single_m", "single_r"):
+            L.append("coll.%s(key(), |d| { vcheck!(w().held_x.get() == %s, M_NOT_HELD_IN_SECTION); %s });" % (sapi, xm, checks_))
+        else:
+            L.append("coll.%s(key(), |mut d| { vcheck!(w().held_x.get() == %s, M_NOT_HELD_IN_SECTION); %s });" % (sapi, xm, checks_))
+        final = ["v%d" % j for j in range(n)]
+    else:
+        final = ["v%d.wrapping_add(%d)" % (j, j + 1) for j in range(n)]
+    if shape.sharable and shape.rguard:
+        rx, rs = held_masks(shape, "r")
+        L.append("let g = %s;" % unwrap_pois(shape, "coll.read(key())"))
+        for j, path in enumerate(shape.rguard):
+            L.append("vcheck!(%s == %s, M_DATA);" % (path, final[j]))
+        L.append("vcheck!(w().held_s.get() == %s, M_NOT_HELD_IN_SECTION);" % rs)
+        L.append("drop(g);")
+    for j, (i, k, ref) in enumerate(shape.leaves):
+        if ref.startswith("&") or ref == "raw6" or shape.kind in ("single_m", "single_r"):
+            continue
+        api = "lock" if k == "M" else "read"
+        L.append("{ let gj = %s.%s(key()); vcheck!(*gj == %s, M_DATA); drop(gj); }" % (ref, api, final[j]))
+    L.append("vcheck!(!w().held_any(), M_HELD_AFTER_ERR);")
+    L.append("vreach!(3);")
+    nm = "data_%s" % shape.name
+    return nm, fn_wrap(nm, L)
+
+
+def gen_data(tier):
+    out = [HEADER]
+    names = []
+    for sh in all_shapes(tier):
+        if sh.guard is None:
+            continue
+        nm, txt = data_entry(sh)
+        names.append(nm)
+        out.append(txt)
+    return "\n".join(out), names
+
+
+# ------------------------------------------------------------------------------------------
+# C16: values dropped exactly once and round-trip unchanged
+# ------------------------------------------------------------------------------------------
+DROP_PRELUDE = """
+use core::cell::Cell;
+use crate::lockable::{LockableGetMut, LockableIntoInner};
+
+pub struct D {
+	pub id: u8,
+	pub val: u8,
+}
+pub struct SyncDrops(pub [Cell<u8>; 8]);
+unsafe impl Sync for SyncDrops {}
+#[allow(clippy::declare_interior_mutable_const)]
+const CZ: Cell<u8> = Cell::new(0);
+pub static DROPS: SyncDrops = SyncDrops([CZ; 8]);
+impl Drop for D {
+	fn drop(&mut self) {
+		let c = &DROPS.0[self.id as usize];
+		c.set(c.get() + 1);
+	}
+}
+pub type MD = crate::mutex::Mutex<D, AuditMutex>;
+pub type RD = crate::rwlock::RwLock<D, AuditRwLock>;
+pub fn md(id: u8, val: u8) -> MD {
+	let m: MD = crate::mutex::Mutex::new(D { id, val });
+	unsafe { m.raw() }.id.set(id);
+	m
+}
+pub fn rd(id: u8, val: u8) -> RD {
+	let r: RD = crate::rwlock::RwLock::new(D { id, val });
+	unsafe { r.raw() }.id.set(id);
+	r
+}
+fn reset_drops() {
+	let mut i = 0;
+	while i < 8 {
+		DROPS.0[i].set(0);
+		i += 1;
+	}
+}
+pub fn dropped(i: usize) -> u8 {
+	DROPS.0[i].get()
+}
+/// every payload 0..n was dropped exactly once, nothing else was
+pub fn all_once(n: usize) -> bool {
+	let mut i = 0;
+	while i < 8 {
+		if dropped(i) != (if i < n { 1 } else { 0 }) {
+			return false;
+		}
+		i += 1;
+	}
+	true
+}
+pub fn none_dropped() -> bool {
+	let mut i = 0;
+	while i < 8 {
+		if dropped(i) != 0 {
+			return false;
+		}
+		i += 1;
+	}
+	true
+}
+"""
+
+
+def drop_entries(tier):
+    E = []
+
+    def add(name, body, n):
+        L = ["w().reset(false);", "reset_drops();"]
+        L += ["let v0 = any_u8(T_DATA | 0);", "let v1 = any_u8(T_DATA | 1);", "let v2 = any_u8(T_DATA | 2);"]
+        L.append("{")
+        L += ["\t" + x for x in body]
+        L.append("}")
+        L.append("vcheck!(all_once(%d), M_DROP_COUNT);" % n)
+        L.append("vcheck!(!w().held_any() && w().bad_release.get() == 0, M_HELD_AFTER_ERR);")
+        L.append("vreach!(3);")
+        E.append((name, fn_wrap(name, L)))
+
+    tuple3 = "(md(0, 10), rd(1, 11), md(2, 12))"
+    write3 = ["{ let mut g = c.lock(key()); g.0.val = v0; g.1.val = v1; g.2.val = v2; }"]
+    for kind, ctor_new in (("boxed", "BoxedLockCollection::new"), ("owned", "OwnedLockCollection::new"), ("retry", "RetryingLockCollection::new")):
+        add("drop_%s_plain" % kind, ["let c = %s(%s);" % (ctor_new, tuple3)] + write3 + ["vcheck!(none_dropped(), M_DROP_COUNT);", "drop(c);"], 3)
+        add("drop_%s_into_inner" % kind, ["let c = %s(%s);" % (ctor_new, tuple3)] + write3 + [
+            "let (a, b, d) = c.into_inner();", "vcheck!(none_dropped(), M_DROP_COUNT);",
+            "vcheck!(a.val == v0 && b.val == v1 && d.val == v2 && a.id == 0 && b.id == 1 && d.id == 2, M_DATA);"], 3)
+        add("drop_%s_into_child" % kind, ["let c = %s(%s);" % (ctor_new, tuple3)] + write3 + [
+            "let t = c.into_child();", "vcheck!(none_dropped(), M_DROP_COUNT);",
+            "let a = t.0.into_inner(); let b = t.1.into_inner(); let d = t.2.into_inner();",
+            "vcheck!(a.val == v0 && b.val == v1 && d.val == v2, M_DATA);"], 3)
+    for kind, ctor_new in (("owned", "OwnedLockCollection::new"), ("retry", "RetryingLockCollection::new")):
+        add("drop_%s_get_mut" % kind, ["let mut c = %s(%s);" % (ctor_new, tuple3),
+                                      "{ let t = c.get_mut(); t.0.val = v0; t.1.val = v1; t.2.val = v2; }",
+                                      "vcheck!(w().ops.get() == 0, M_BLOCKING_IN_TRY);",
+                                      "{ let g = c.lock(key()); vcheck!(g.0.val == v0 && g.1.val == v1 && g.2.val == v2, M_DATA); }",
+                                      "vcheck!(none_dropped(), M_DROP_COUNT);"], 3)
+    # checked constructors rejecting their input: referenced locks stay alive, owned members are dropped once
+    for kind, c in (("boxed", "BoxedLockCollection::try_new"), ("retry", "RetryingLockCollection::try_new")):
+        add("drop_%s_reject" % kind, ["let m = md(0, 10);", "let r = %s((&m, md(1, 11), &m));" % c,
+                                      "vcheck!(r.is_none(), M_DUP_VERDICT);", "drop(r);",
+                                      "vcheck!(dropped(0) == 0 && dropped(1) == 1, M_DROP_COUNT);",
+                                      "{ let mut g = m.lock(key()); g.val = v0; }",
+                                      "let d = m.into_inner();", "vcheck!(d.val == v0, M_DATA);"], 2)
+        add("drop_%s_accept_refs" % kind, ["let m = md(0, 10); let r2 = rd(1, 11);",
+                                           "let c = %s((&m, &r2, md(2, 12))).unwrap();" % c] + write3 + [
+            "drop(c);", "vcheck!(dropped(0) == 0 && dropped(1) == 0 && dropped(2) == 1, M_DROP_COUNT);",
+            "vcheck!(m.into_inner().val == v0 && r2.into_inner().val == v1, M_DATA);"], 3)
+    add("drop_ref_new", ["let t = %s;" % tuple3, "{ let c = RefLockCollection::new(&t);"] + ["\t" + w_ for w_ in write3] + ["}",
+        "vcheck!(none_dropped(), M_DROP_COUNT);", "let (a, b, d) = (t.0.into_inner(), t.1.into_inner(), t.2.into_inner());",
+        "vcheck!(a.val == v0 && b.val == v1 && d.val == v2, M_DATA);"], 3)
+    # arrays, vectors, boxed slices
+    arr3 = "[md(0, 10), md(1, 11), md(2, 12)]"
+    writea = ["{ let mut g = c.lock(key()); g[0].val = v0; g[1].val = v1; g[2].val = v2; }"]
+    for kind, ctor_new in (("boxed", "BoxedLockCollection::new"), ("owned", "OwnedLockCollection::new"), ("retry", "RetryingLockCollection::new")):
+        add("drop_%s_array_into_inner" % kind, ["let c = %s(%s);" % (ctor_new, arr3)] + writea + [
+            "let a = c.into_inner();", "vcheck!(a[0].val == v0 && a[1].val == v1 && a[2].val == v2, M_DATA);",
+            "vcheck!(none_dropped(), M_DROP_COUNT);"], 3)
+        add("drop_%s_vec_into_inner" % kind, ["let c = %s(vec!%s);" % (ctor_new, arr3)] + writea + [
+            "let a = c.into_inner();", "vcheck!(a.len() == 3 && a[0].val == v0 && a[1].val == v1 && a[2].val == v2, M_DATA);",
+            "vcheck!(none_dropped(), M_DROP_COUNT);"], 3)
+        add("drop_%s_vec_into_iter_partial" % kind, ["let c = %s(vec!%s);" % (ctor_new, arr3)] + writea + [
+            "let mut it = c.into_iter();", "let first = it.next().unwrap();",
+            "vcheck!(first.into_inner().val == v0, M_DATA);", "vcheck!(dropped(0) == 1 && dropped(1) == 0, M_DROP_COUNT);", "drop(it);"], 3)
+        add("drop_%s_array_plain" % kind, ["let c = %s(%s);" % (ctor_new, arr3)] + writea + ["drop(c);"], 3)
+    add("drop_owned_vec_extend", ["let mut c = OwnedLockCollection::new(vec![md(0, 10)]);", "c.extend([md(1, 11), md(2, 12)]);",
+                                  "{ let mut g = c.lock(key()); vcheck!(g.len() == 3, M_DATA); g[0].val = v0; g[2].val = v2; }",
+                                  "let a = c.into_inner();", "vcheck!(a.len() == 3 && a[0].val == v0 && a[1].val == 11 && a[2].val == v2, M_DATA);"], 3)
+    add("drop_retry_vec_extend", ["let mut c = RetryingLockCollection::new(vec![md(0, 10)]);", "c.extend([md(1, 11), md(2, 12)]);",
+                                  "{ let mut g = c.lock(key()); vcheck!(g.len() == 3, M_DATA); g[1].val = v1; }",
+                                  "let a = c.into_inner();", "vcheck!(a[0].val == 10 && a[1].val == v1 && a[2].val == 12, M_DATA);"], 3)
+    add("drop_boxed_boxed_slice", ["let b: Box<[MD]> = vec!%s.into_boxed_slice();" % arr3, "let c = BoxedLockCollection::new(b);"] + writea + [
+        "let a = c.into_inner();", "vcheck!(a[0].val == v0 && a[1].val == v1 && a[2].val == v2, M_DATA);"], 3)
+    # poisonable and single locks
+    add("drop_pois_into_inner", ["let p = Poisonable::new(md(0, 10));", "{ let mut g = p.lock(key()).unwrap(); g.val = v0; }",
+                                 "let d = p.into_inner().unwrap();", "vcheck!(d.val == v0 && none_dropped(), M_DATA);"], 1)
+    add("drop_pois_poisoned_into_inner", ["let p = Poisonable::new(md(0, 10));",
+                                          "let r = catch_unwind(AssertUnwindSafe(|| { let mut g = p.lock(key()).unwrap(); g.val = v0; eng::inject_panic(); }));",
+                                          "drop(r);", "vcheck!(p.is_poisoned(), M_POISON_MODEL);",
+                                          "match p.into_inner() { Ok(_d) => { vcheck!(false, M_POISON_MODEL); } Err(e) => { let d = e.into_inner(); vcheck!(d.val == v0, M_DATA); } }"], 1)
+    add("drop_pois_into_child_get_mut", ["let mut p = Poisonable::new(md(0, 10));", "p.get_mut().unwrap().val = v0;",
+                                         "let m = p.into_child().unwrap();", "vcheck!(m.into_inner().val == v0, M_DATA);"], 1)
+    add("drop_single", ["let mut m = md(0, 10); let r = rd(1, 11);", "m.get_mut().val = v0;",
+                        "{ let mut g = r.write(key()); g.val = v1; }", "vcheck!(none_dropped(), M_DROP_COUNT);",
+                        "vcheck!(m.into_inner().val == v0 && r.into_inner().val == v1, M_DATA);"], 2)
+    add("drop_nested", ["let c = BoxedLockCollection::new((OwnedLockCollection::new((md(0, 10), md(1, 11))), RetryingLockCollection::new((md(2, 12),))));",
+                        "{ let mut g = c.lock(key()); (g.0).0.val = v0; (g.0).1.val = v1; (g.1).0.val = v2; }",
+                        "let ((a, b), (d,)) = c.into_inner();", "vcheck!(a.val == v0 && b.val == v1 && d.val == v2, M_DATA);"], 3)
+    return E
+
+
+def gen_drop(tier):
+    out = [HEADER, DROP_PRELUDE]
+    names = []
+    for nm, txt in drop_entries(tier):
+        names.append(nm)
+        out.append(txt)
+    return "\n".join(out), names
